@@ -127,4 +127,107 @@ def DecodeFixed64.body (fuel : Nat) : DecodeFixed64.St → Go.Out DecodeFixed64.
 def DecodeFixed64 (fuel : Nat) (p : Bytes) : Go.Out DecodeFixed64.St DecodeFixed64.R :=
   DecodeFixed64.body fuel { p := p }
 
+/-! ### `EncodeTag` (/repo/encoder.go:394:1) -/
+
+structure EncodeTag.St where
+  dest : Bytes
+  tag : BitVec 64
+  wireType : BitVec 64
+  k : BitVec 64 := 0#64
+
+abbrev EncodeTag.R := BitVec 64
+
+/-- the body of `EncodeTag`, statement by statement -/
+def EncodeTag.body (fuel : Nat) : EncodeTag.St → Go.Out EncodeTag.St EncodeTag.R :=
+  (Go.seq (Go.seq (fun s => .next { s with k := ((s.tag <<< 3) ||| s.wireType) })
+    (fun s => match (EncodeVarint fuel s.dest s.k) with | .ret r c => .ret r { s with dest := c.dest } | .next _ => .panic | .panic => .panic | .diverge => .diverge))
+    Go.missingReturn)
+
+def EncodeTag (fuel : Nat) (dest : Bytes) (tag : BitVec 64) (wireType : BitVec 64) : Go.Out EncodeTag.St EncodeTag.R :=
+  EncodeTag.body fuel { dest := dest, tag := tag, wireType := wireType }
+
+/-! ### `EncodeZigZag32` (/repo/encoder.go:432:1) -/
+
+structure EncodeZigZag32.St where
+  dest : Bytes
+  v : BitVec 32
+  zz : BitVec 64 := 0#64
+
+abbrev EncodeZigZag32.R := BitVec 64
+
+/-- the body of `EncodeZigZag32`, statement by statement -/
+def EncodeZigZag32.body (fuel : Nat) : EncodeZigZag32.St → Go.Out EncodeZigZag32.St EncodeZigZag32.R :=
+  (Go.seq (Go.seq (fun s => .next { s with zz := (BitVec.setWidth 64 ((s.v <<< 1) ^^^ (BitVec.sshiftRight s.v 31))) })
+    (fun s => match (EncodeVarint fuel s.dest s.zz) with | .ret r c => .ret r { s with dest := c.dest } | .next _ => .panic | .panic => .panic | .diverge => .diverge))
+    Go.missingReturn)
+
+def EncodeZigZag32 (fuel : Nat) (dest : Bytes) (v : BitVec 32) : Go.Out EncodeZigZag32.St EncodeZigZag32.R :=
+  EncodeZigZag32.body fuel { dest := dest, v := v }
+
+/-! ### `EncodeZigZag64` (/repo/encoder.go:439:1) -/
+
+structure EncodeZigZag64.St where
+  dest : Bytes
+  v : BitVec 64
+  zz : BitVec 64 := 0#64
+
+abbrev EncodeZigZag64.R := BitVec 64
+
+/-- the body of `EncodeZigZag64`, statement by statement -/
+def EncodeZigZag64.body (fuel : Nat) : EncodeZigZag64.St → Go.Out EncodeZigZag64.St EncodeZigZag64.R :=
+  (Go.seq (Go.seq (fun s => .next { s with zz := ((s.v <<< 1) ^^^ (BitVec.sshiftRight s.v 63)) })
+    (fun s => match (EncodeVarint fuel s.dest s.zz) with | .ret r c => .ret r { s with dest := c.dest } | .next _ => .panic | .panic => .panic | .diverge => .diverge))
+    Go.missingReturn)
+
+def EncodeZigZag64 (fuel : Nat) (dest : Bytes) (v : BitVec 64) : Go.Out EncodeZigZag64.St EncodeZigZag64.R :=
+  EncodeZigZag64.body fuel { dest := dest, v := v }
+
+/-! ### `DecodeZigZag32` (/repo/decoder.go:1055:1) -/
+
+structure DecodeZigZag32.St where
+  p : Bytes
+  v : BitVec 32 := 0#32
+  n : BitVec 64 := 0#64
+  err : Go.Err := Go.Err.nil
+  dv : BitVec 64 := 0#64
+
+abbrev DecodeZigZag32.R := BitVec 32 × BitVec 64 × Go.Err
+
+/-- the body of `DecodeZigZag32`, statement by statement -/
+def DecodeZigZag32.body (fuel : Nat) : DecodeZigZag32.St → Go.Out DecodeZigZag32.St DecodeZigZag32.R :=
+  (Go.seq (Go.seq Go.skip
+    (Go.seq (fun s => match (DecodeVarint fuel s.p) with | .ret r c => .next { s with dv := r.1, n := r.2.1, err := r.2.2 } | .next _ => .panic | .panic => .panic | .diverge => .diverge)
+    (Go.seq (fun s => if (s.err != Go.Err.nil) then (fun s => .ret (0#32, 0#64, s.err) s) s else Go.skip s)
+    (Go.seq (fun s => if (s.n == 0#64) then (fun s => .ret (0#32, 0#64, Go.Err.invalidVarint) s) s else Go.skip s)
+    (Go.seq (fun s => .next { s with dv := (BitVec.setWidth 64 (((BitVec.setWidth 32 s.dv) >>> 1) ^^^ (BitVec.sshiftRight ((BitVec.setWidth 32 (s.dv &&& 1#64)) <<< 31) 31))) })
+    (fun s => .ret ((BitVec.setWidth 32 s.dv), s.n, Go.Err.nil) s))))))
+    Go.missingReturn)
+
+def DecodeZigZag32 (fuel : Nat) (p : Bytes) : Go.Out DecodeZigZag32.St DecodeZigZag32.R :=
+  DecodeZigZag32.body fuel { p := p }
+
+/-! ### `DecodeZigZag64` (/repo/decoder.go:1072:1) -/
+
+structure DecodeZigZag64.St where
+  p : Bytes
+  v : BitVec 64 := 0#64
+  n : BitVec 64 := 0#64
+  err : Go.Err := Go.Err.nil
+  dv : BitVec 64 := 0#64
+
+abbrev DecodeZigZag64.R := BitVec 64 × BitVec 64 × Go.Err
+
+/-- the body of `DecodeZigZag64`, statement by statement -/
+def DecodeZigZag64.body (fuel : Nat) : DecodeZigZag64.St → Go.Out DecodeZigZag64.St DecodeZigZag64.R :=
+  (Go.seq (Go.seq Go.skip
+    (Go.seq (fun s => match (DecodeVarint fuel s.p) with | .ret r c => .next { s with dv := r.1, n := r.2.1, err := r.2.2 } | .next _ => .panic | .panic => .panic | .diverge => .diverge)
+    (Go.seq (fun s => if (s.err != Go.Err.nil) then (fun s => .ret (0#64, 0#64, s.err) s) s else Go.skip s)
+    (Go.seq (fun s => if (s.n == 0#64) then (fun s => .ret (0#64, 0#64, Go.Err.invalidVarint) s) s else Go.skip s)
+    (Go.seq (fun s => .next { s with dv := ((s.dv >>> 1) ^^^ (BitVec.sshiftRight ((s.dv &&& 1#64) <<< 63) 63)) })
+    (fun s => .ret (s.dv, s.n, Go.Err.nil) s))))))
+    Go.missingReturn)
+
+def DecodeZigZag64 (fuel : Nat) (p : Bytes) : Go.Out DecodeZigZag64.St DecodeZigZag64.R :=
+  DecodeZigZag64.body fuel { p := p }
+
 end Csproto.Generated.WireFuncs
